@@ -811,10 +811,14 @@ func (env *Env) evalCall(x *ECall) SV {
 		}
 		return mathInt(t)
 	}
-	if g, ok := e.spec.Ghosts[x.Fn]; ok && g.Name == "locked" {
+	if g, ok := e.spec.Ghosts[x.Fn]; ok && (g.Name == "locked" || g.Name == "lockCount") {
 		argn(1)
 		if lv := env.evalLV(x.Args[0]); lv != nil && env.vc.e.typeName(lv.Typ) == "sync.Mutex" {
-			return mathBool(env.fc.ghostGet(env.st, g.Name, g.Sort, env.fc.interiorPtr(lv)))
+			t := env.fc.ghostGet(env.st, g.Name, g.Sort, env.fc.interiorPtr(lv))
+			if g.Sort == SBool {
+				return mathBool(t)
+			}
+			return mathInt(t)
 		}
 	}
 	if g, ok := e.spec.Ghosts[x.Fn]; ok {
